@@ -806,6 +806,18 @@ def compareAfterCast (env : Env) (τ : DTKind) (a b : DateTime) : Except CastErr
 /-- a `Date` that is cast to `timestamp` must sit at offset 0 (as `NewDate` makes it) -/
 def DateOffsetOK (d : DateTime) : Prop := d.kind = .date → (d.off = 0 ∧ d.nsec < 1000000000)
 
+theorem compare_of_timestamptz (env : Env) (a b : DateTime) (ha : a.kind = .timestamptz) (hb : b.kind = .timestamptz) :
+    compareDatetime env true a b = .ok (a.t.compare b.t) := by
+  rw [compareDatetime_sameKind env true a b (ha.trans hb.symm)]; simp [ha]
+
+theorem compare_of_timestamp (env : Env) (a b : DateTime) (ha : a.kind = .timestamp) (hb : b.kind = .timestamp) :
+    compareDatetime env true a b = .ok (a.t.compare b.t) := by
+  rw [compareDatetime_sameKind env true a b (ha.trans hb.symm)]; simp [ha]
+
+theorem compare_of_timetz (env : Env) (a b : DateTime) (ha : a.kind = .timetz) (hb : b.kind = .timetz) :
+    compareDatetime env true a b = .ok (timeTZCompare a.t b.t) := by
+  rw [compareDatetime_sameKind env true a b (ha.trans hb.symm)]; simp [ha]
+
 /-- **C17 coherence**: with `WithTZ`, comparing two comparable datetimes gives the same answer as
     comparing them after explicit casts to their common type — for every context zone, every
     `today`, both operand orders, and all 13 comparable kind pairs. -/
@@ -817,14 +829,17 @@ theorem compare_equals_cast (env : Env) (a b : DateTime) (τ : DTKind)
   simp only at ha hb
   cases ka <;> cases kb <;> simp only [commonKind, Option.some.injEq, reduceCtorEq] at hτ <;> subst hτ <;>
     simp only [compareAfterCast, castTo, bind, Except.bind, if_true] <;>
-    (conv => rhs; rw [compareDatetime_sameKind _ _ _ _ (by rfl)]) <;>
-    simp only [compareDatetime, if_true, if_false, reduceCtorEq]
+    (conv => rhs; first
+      | rw [compare_of_timestamptz _ _ _ (by rfl) (by rfl)]
+      | rw [compare_of_timestamp _ _ _ (by rfl) (by rfl)]
+      | rw [compare_of_timetz _ _ _ (by rfl) (by rfl)]) <;>
+    simp only [compareDatetime, if_true]
   · -- date, timestamp
     obtain ⟨ho, hn⟩ := ha rfl; subst ho
     simp only [dateToTimestamp]
     rw [newTimestamp_eq _ hn]; simp [DateTime.t, GoTime.compare]
   · -- time, timetz
-    rw [timeTZCompare_swap]
+    exact congrArg Except.ok (timeTZCompare_swap _ _).symm
   · -- timestamp, date
     obtain ⟨ho, hn⟩ := hb rfl; subst ho
     simp only [dateToTimestamp]
@@ -908,28 +923,56 @@ theorem compareDatetime_instant (env : Env) (hm : env.zone.StrictMono) (a b : Da
     (ha : InstantWF a) (hb : InstantWF b) :
     compareDatetime env true a b = .ok ((instantIn env a).compare (instantIn env b)) := by
   rcases ha with ha | ha | ha <;> rcases hb with hb | hb | hb
-  all_goals
-    first
-      | (have e1 := dateToTimestampTZ_eq env a ha) | (have e1 := timestampToTimestampTZ_eq env a ha) | skip
-  all_goals
-    first
-      | (have e2 := dateToTimestampTZ_eq env b hb) | (have e2 := timestampToTimestampTZ_eq env b hb) | skip
-  all_goals
-    have ka := (show a.kind = _ from first | exact ha.kind | exact ha)
-    have kb := (show b.kind = _ from first | exact hb.kind | exact hb)
+  · have ka := ha.kind; have kb := hb.kind
     cases a with | mk k1 s1 n1 o1 => cases b with | mk k2 s2 n2 o2 =>
     simp only at ka kb; subst ka; subst kb
-    simp only [compareDatetime, instantIn, if_true, if_false, reduceCtorEq, DateTime.t] at *
-  -- date/date, date/ts, ts/date, ts/ts: own instants, monotone image
-  · exact (compare_resolved env.zone hm s1 s2 n1 n2 0 0 o1 o2).symm ▸ rfl
-  · exact (compare_resolved env.zone hm s1 s2 n1 n2 0 0 o1 o2).symm ▸ rfl
-  · rw [e1]; have := ha.nsec; simp only at this; subst this; rfl
-  · exact (compare_resolved env.zone hm s1 s2 n1 n2 0 0 o1 o2).symm ▸ rfl
-  · exact (compare_resolved env.zone hm s1 s2 n1 n2 0 0 o1 o2).symm ▸ rfl
-  · rw [e1]; rfl
-  · rw [e2]; have := hb.nsec; simp only at this; subst this; rfl
-  · rw [e2]; rfl
-  · rfl
+    simp only [compareDatetime, instantIn, reduceCtorEq, if_false, DateTime.t]
+    rw [compare_resolved env.zone hm s1 s2 n1 n2 0 0 o1 o2]
+  · have ka := ha.kind; have kb := hb.kind
+    cases a with | mk k1 s1 n1 o1 => cases b with | mk k2 s2 n2 o2 =>
+    simp only at ka kb; subst ka; subst kb
+    simp only [compareDatetime, instantIn, reduceCtorEq, if_false, DateTime.t]
+    rw [compare_resolved env.zone hm s1 s2 n1 n2 0 0 o1 o2]
+  · have ka := ha.kind; have kb := hb
+    cases a with | mk k1 s1 n1 o1 => cases b with | mk k2 s2 n2 o2 =>
+    simp only at ka kb; subst ka; subst kb
+    have hn := ha.nsec; simp only at hn; subst hn
+    simp only [compareDatetime, instantIn, reduceCtorEq, if_false, if_true]
+    rw [dateToTimestampTZ_eq env _ ha]
+    rfl
+  · have ka := ha.kind; have kb := hb.kind
+    cases a with | mk k1 s1 n1 o1 => cases b with | mk k2 s2 n2 o2 =>
+    simp only at ka kb; subst ka; subst kb
+    simp only [compareDatetime, instantIn, reduceCtorEq, if_false, DateTime.t]
+    rw [compare_resolved env.zone hm s1 s2 n1 n2 0 0 o1 o2]
+  · have ka := ha.kind; have kb := hb.kind
+    cases a with | mk k1 s1 n1 o1 => cases b with | mk k2 s2 n2 o2 =>
+    simp only at ka kb; subst ka; subst kb
+    simp only [compareDatetime, instantIn, reduceCtorEq, if_false, DateTime.t]
+    rw [compare_resolved env.zone hm s1 s2 n1 n2 0 0 o1 o2]
+  · have ka := ha.kind; have kb := hb
+    cases a with | mk k1 s1 n1 o1 => cases b with | mk k2 s2 n2 o2 =>
+    simp only at ka kb; subst ka; subst kb
+    simp only [compareDatetime, instantIn, reduceCtorEq, if_false, if_true]
+    rw [timestampToTimestampTZ_eq env _ ha]
+    rfl
+  · have ka := ha; have kb := hb.kind
+    cases a with | mk k1 s1 n1 o1 => cases b with | mk k2 s2 n2 o2 =>
+    simp only at ka kb; subst ka; subst kb
+    have hn := hb.nsec; simp only at hn; subst hn
+    simp only [compareDatetime, instantIn, reduceCtorEq, if_false, if_true]
+    rw [dateToTimestampTZ_eq env _ hb]
+    rfl
+  · have ka := ha; have kb := hb.kind
+    cases a with | mk k1 s1 n1 o1 => cases b with | mk k2 s2 n2 o2 =>
+    simp only at ka kb; subst ka; subst kb
+    simp only [compareDatetime, instantIn, reduceCtorEq, if_false, if_true]
+    rw [timestampToTimestampTZ_eq env _ hb]
+    rfl
+  · have ka := ha; have kb := hb
+    cases a with | mk k1 s1 n1 o1 => cases b with | mk k2 s2 n2 o2 =>
+    simp only at ka kb; subst ka; subst kb
+    simp only [compareDatetime, instantIn, if_true]
 
 /-- transitivity of `≤` among dates, timestamps and timestamps with time zone (`useTZ = true`), in
     every context zone where `time.Date` is strictly increasing -/
@@ -950,6 +993,33 @@ theorem compareDatetime_trans_instant_fixed (o today : Int) (a b c : DateTime)
     (h2 : compareDatetime ⟨Zone.fixed o, today⟩ true b c = .ok r2)
     (l1 : r1 ≤ 0) (l2 : r2 ≤ 0) : ∃ r3, compareDatetime ⟨Zone.fixed o, today⟩ true a c = .ok r3 ∧ r3 ≤ 0 :=
   compareDatetime_trans_instant _ (Zone.strictMono_fixed o) a b c ha hb hc r1 r2 h1 h2 l1 l2
+
+/-! ## C17: transitivity fails around a nonexistent local time (DST gap) -/
+
+/-- America/New_York around 2024 -/
+def envNY : Env := ⟨⟨-18000, [(1710054000, -14400), (1730613600, -18000)]⟩, 20000⟩
+/-- `"2024-03-10T01:30:00.5".timestamp()` -/
+def gapA : DateTime := ⟨.timestamp, 1710034200, 500000000, 0⟩
+/-- `"2024-03-10T02:30:00".timestamp()` — this local time does not exist in New York -/
+def gapB : DateTime := ⟨.timestamp, 1710037800, 0, 0⟩
+/-- `"2024-03-10T06:30:00.2Z".timestamp_tz()` -/
+def gapC : DateTime := ⟨.timestamptz, 1710052200, 200000000, 0⟩
+
+/-- known finding (D28): `time.Date` maps the nonexistent 02:30 back to 01:30 EST, so
+    `a < b` (as timestamps), `b < c` (in the zone), yet `a > c`: comparison through the context
+    zone is not transitive when an operand is a local time inside a DST gap
+    (`Zone.StrictMono` fails for this zone) -/
+theorem compare_not_transitive_in_gap :
+    compareDatetime envNY true gapA gapB = .ok (-1) ∧
+    compareDatetime envNY true gapB gapC = .ok (-1) ∧
+    compareDatetime envNY true gapA gapC = .ok 1 := ⟨rfl, rfl, rfl⟩
+
+theorem envNY_not_strictMono : ¬ envNY.zone.StrictMono := by
+  intro h
+  have := h 1710034200 1710037800 (by omega)
+  have e1 : resolveWall envNY.zone 1710034200 = 1710052200 := by rfl
+  have e2 : resolveWall envNY.zone 1710037800 = 1710052200 := by rfl
+  omega
 
 /-! ## C17: transitivity fails for mixed `time`/`timetz` on a DST-gap day -/
 
